@@ -169,116 +169,6 @@ pub fn pos_allow(args: &[String]) -> String {
     format!("{{\"found\": false, \"tried\": {}}}", tried)
 }
 
-/// C07 bounded stand-in on the real public API: position and length arithmetic (wrapping position, saturating
-/// length, set / unset, finish variants), single-threaded.
-pub fn pos_arith(_args: &[String]) -> String {
-    use indicatif::ProgressBar;
-    std::panic::set_hook(Box::new(|_| {}));
-    let mut tried = 0u64;
-    let vals = [0u64, 1, 7, u64::MAX - 1, u64::MAX];
-    for &p0 in &vals {
-        for &d in &vals {
-            let pb = ProgressBar::hidden();
-            pb.set_position(p0);
-            pb.inc(d);
-            tried += 1;
-            if pb.position() != p0.wrapping_add(d) {
-                return format!("{{\"found\": true, \"clause\": \"C07 inc wraps modulo 2^64\", \"input\": {{\"position\": \"{}\", \"delta\": \"{}\", \"got\": \"{}\"}}, \"rerun\": \"replay pos_arith\"}}", p0, d, pb.position());
-            }
-            let pb = ProgressBar::hidden();
-            pb.set_position(p0);
-            pb.dec(d);
-            tried += 1;
-            if pb.position() != p0.wrapping_sub(d) {
-                return format!("{{\"found\": true, \"clause\": \"C07 dec wraps modulo 2^64 without panicking\", \"input\": {{\"position\": \"{}\", \"delta\": \"{}\", \"got\": \"{}\"}}, \"rerun\": \"replay pos_arith\"}}", p0, d, pb.position());
-            }
-            for len0 in [None, Some(p0)] {
-                let pb = ProgressBar::hidden();
-                if let Some(l) = len0 { pb.set_length(l); }
-                pb.inc_length(d);
-                let want = len0.map(|l| l.saturating_add(d));
-                tried += 1;
-                if pb.length() != want {
-                    return format!("{{\"found\": true, \"clause\": \"C07 inc_length saturates, an unknown length stays unknown\", \"input\": {{\"length\": {:?}, \"delta\": \"{}\", \"got\": {:?}}}, \"rerun\": \"replay pos_arith\"}}", len0, d, pb.length());
-                }
-                let pb = ProgressBar::hidden();
-                if let Some(l) = len0 { pb.set_length(l); }
-                pb.dec_length(d);
-                let want = len0.map(|l| l.saturating_sub(d));
-                tried += 1;
-                if pb.length() != want {
-                    return format!("{{\"found\": true, \"clause\": \"C07 dec_length saturates at zero\", \"input\": {{\"length\": {:?}, \"delta\": \"{}\", \"got\": {:?}}}, \"rerun\": \"replay pos_arith\"}}", len0, d, pb.length());
-                }
-            }
-        }
-    }
-    // a history: inc; dec below zero; inc back
-    let pb = ProgressBar::hidden();
-    pb.inc(5); pb.dec(7); pb.inc(7);
-    tried += 1;
-    if pb.position() != 5 {
-        return format!("{{\"found\": true, \"clause\": \"C07 position arithmetic is modular: inc(5); dec(7); inc(7) == 5\", \"input\": {{\"got\": \"{}\"}}, \"rerun\": \"replay pos_arith\"}}", pb.position());
-    }
-    // finish variants: position == length for finish*, unchanged for abandon*
-    for v in 0..5 {
-        let pb = ProgressBar::hidden();
-        pb.set_length(10);
-        pb.set_position(3);
-        match v { 0 => pb.finish(), 1 => pb.finish_with_message("m"), 2 => pb.finish_and_clear(), 3 => pb.abandon(), _ => pb.abandon_with_message("m") }
-        let want = if v <= 2 { 10 } else { 3 };
-        tried += 1;
-        if pb.position() != want || pb.length() != Some(10) || !pb.is_finished() {
-            return format!("{{\"found\": true, \"clause\": \"C07/C04 finish variants move the position to the length, abandon variants leave it\", \"input\": {{\"variant\": {}, \"position\": \"{}\"}}, \"rerun\": \"replay pos_arith\"}}", v, pb.position());
-        }
-    }
-    format!("{{\"found\": false, \"tried\": {}}}", tried)
-}
 
-/// C07: position() and length() against the history-defined model, for every history of up to 4 operations out of 15
-/// (boundary arguments), on a hidden and on a visible (in-memory) bar.
-pub fn pos_history(_args: &[String]) -> String {
-    use indicatif::{InMemoryTerm, ProgressBar, ProgressDrawTarget};
-    std::panic::set_hook(Box::new(|_| {}));
-    let mut tried = 0u64;
-    const M: u64 = u64::MAX;
-    let names = ["inc(3)", "inc(MAX)", "dec(2)", "dec(MAX-1)", "set_position(7)", "set_position(MAX)", "set_length(5)", "set_length(0)",
-        "inc_length(2)", "inc_length(MAX)", "dec_length(4)", "unset_length", "reset", "finish", "abandon"];
-    let n = names.len();
-    for visible in [false, true] {
-        for a in 0..n { for b in 0..n { for c in 0..n { for d in [0usize, 2, 6, 10, 13] {
-            let pb = if visible {
-                ProgressBar::with_draw_target(Some(10), ProgressDrawTarget::term_like(Box::new(InMemoryTerm::new(10, 40))))
-            } else {
-                let pb = ProgressBar::hidden(); pb.set_length(10); pb
-            };
-            let (mut pos, mut len): (u64, Option<u64>) = (0, Some(10));
-            let mut hist: Vec<&str> = vec![];
-            for op in [a, b, c, d] {
-                match op {
-                    0 => { pb.inc(3); pos = pos.wrapping_add(3); }
-                    1 => { pb.inc(M); pos = pos.wrapping_add(M); }
-                    2 => { pb.dec(2); pos = pos.wrapping_sub(2); }
-                    3 => { pb.dec(M - 1); pos = pos.wrapping_sub(M - 1); }
-                    4 => { pb.set_position(7); pos = 7; }
-                    5 => { pb.set_position(M); pos = M; }
-                    6 => { pb.set_length(5); len = Some(5); }
-                    7 => { pb.set_length(0); len = Some(0); }
-                    8 => { pb.inc_length(2); len = len.map(|l| l.saturating_add(2)); }
-                    9 => { pb.inc_length(M); len = len.map(|l| l.saturating_add(M)); }
-                    10 => { pb.dec_length(4); len = len.map(|l| l.saturating_sub(4)); }
-                    11 => { pb.unset_length(); len = None; }
-                    12 => { pb.reset(); pos = 0; }
-                    13 => { pb.finish(); if let Some(l) = len { pos = l; } }
-                    _ => { pb.abandon(); }
-                }
-                hist.push(names[op]);
-                tried += 1;
-                if pb.position() != pos || pb.length() != len {
-                    return format!("{{\"found\": true, \"clause\": \"C07 position() is defined by the history of inc/dec/set_position/reset/finish (wrapping), length() by set_length/inc_length/dec_length/unset_length (saturating)\", \"input\": {{\"visible\": {}, \"history\": {}, \"expected\": \"position {} length {:?}\", \"got\": \"position {} length {:?}\"}}, \"rerun\": \"replay pos_history\"}}",
-                        visible, crate::jlist(&hist), pos, len, pb.position(), pb.length());
-                }
-            }
-        }}}}
-    }
-    format!("{{\"found\": false, \"tried\": {}}}", tried)
-}
+
+
